@@ -73,6 +73,8 @@ func body(s *simrt.Sim, tier string) {
 		AnnounceInterval: time.Duration(1+tp.Draw(5)) * time.Second, PeerHandoutLimit: 1 + tp.Draw(5)}
 	c := cluster.New(s, p)
 	faulty := tp.Chance(700)
+	// workload variant (out of band): crashed agents restart on their directories
+	restartCrashed := s.Tape.Variant%2 == 1
 	if faulty && tp.Chance(500) {
 		c.NW.MaxLatency = time.Duration(tp.Draw(80)) * time.Millisecond
 		c.NW.ChunkPm = tp.Draw(300)
@@ -154,9 +156,18 @@ func body(s *simrt.Sim, tier string) {
 			case 1: // agent crash
 				x := dls[tp.Draw(nAgents)]
 				if !x.gone && !x.corrupt {
-					x.gone = true
 					s.Fault("crash")
 					s.KillNode(x.agent.Node)
+					if restartCrashed {
+						// the process comes back on the same directories (partial
+						// download files, sidecars) and asks for the blob again
+						simrt.Sleep(time.Duration(tp.Draw(4000)) * time.Millisecond)
+						x.agent = c.StartAgent(x.idx)
+						s.Probe("agent_restarted_after_crash")
+						start(x, time.Duration(tp.Draw(3))*time.Second)
+					} else {
+						x.gone = true
+					}
 				}
 			case 2: // origin crash, keeping one seeder
 				if aliveOrigins > 1 {
